@@ -1490,6 +1490,59 @@ impl<'a> Gen<'a> {
         self.globals.push((g, fty));
     }
 
+    /// `fn mk(){ let k = c0; let g = |x| x*k + c1; let b = |y| g(y); let c = |z| g(z) + g(c2); c }`
+    /// + `let h = mk()`: two sibling closures share one captured closure-valued local, one of
+    /// them escapes (reference counting of shared upvalue cells).
+    fn gen_shared_capture_closure(&mut self, fns: &mut Vec<FnDef>, globals: &mut Vec<(String, Ty, E)>) {
+        self.mark("shared_closure_capture");
+        let mk = self.fresh("mk");
+        let k = self.fresh("v");
+        let g = self.fresh("lf");
+        let b = self.fresh("lf");
+        let c = self.fresh("lf");
+        let (x, y, z) = (self.fresh("la"), self.fresh("la"), self.fresh("la"));
+        let (c0, c1, c2) = (self.lit(), self.lit(), self.lit());
+        let fty = Ty::Fun(vec![Ty::F], Box::new(Ty::F));
+        let p = |n: &String| vec![Param { name: n.clone(), ty: Ty::F, annot: false, default: None }];
+        let call = |f: &String, a: E| E::CallVal(Box::new(E::Var(f.clone())), vec![a]);
+        let g_lam = E::Lambda(
+            p(&x),
+            Box::new(Block {
+                stmts: vec![],
+                result: E::Bin(
+                    BinOp::Add,
+                    Box::new(E::Bin(BinOp::Mul, Box::new(E::Var(x.clone())), Box::new(E::Var(k.clone())))),
+                    Box::new(c1),
+                ),
+            }),
+        );
+        let b_lam = E::Lambda(p(&y), Box::new(Block { stmts: vec![], result: call(&g, E::Var(y.clone())) }));
+        let c_lam = E::Lambda(
+            p(&z),
+            Box::new(Block { stmts: vec![], result: E::Bin(BinOp::Add, Box::new(call(&g, E::Var(z.clone()))), Box::new(call(&g, c2))) }),
+        );
+        fns.push(FnDef {
+            name: mk.clone(),
+            params: vec![],
+            ret: fty.clone(),
+            ret_annot: false,
+            body: Block {
+                stmts: vec![
+                    Stmt::Let(Pat::Var(k), None, c0),
+                    Stmt::Let(Pat::Var(g), None, g_lam),
+                    Stmt::Let(Pat::Var(b), None, b_lam),
+                    Stmt::Let(Pat::Var(c.clone()), None, c_lam),
+                ],
+                result: E::Var(c),
+            },
+            stateful: false,
+        });
+        let h = self.fresh("g");
+        let site = self.site();
+        globals.push((h.clone(), fty.clone(), E::CallFn { name: mk, args: vec![], style: CallStyle::Positional, site }));
+        self.globals.push((h, fty));
+    }
+
     pub fn program(mut self) -> Program {
         let mut fns: Vec<FnDef> = vec![];
         let mut globals: Vec<(String, Ty, E)> = vec![];
@@ -1529,6 +1582,9 @@ impl<'a> Gen<'a> {
         }
         if self.feat.escaping_closures && self.feat.lambdas && self.feat.closures_assign && self.rng.chance(1, 3) {
             self.gen_escaping_closure(&mut fns, &mut globals);
+        }
+        if self.feat.escaping_closures && self.feat.lambdas && self.rng.chance(1, 4) {
+            self.gen_shared_capture_closure(&mut fns, &mut globals);
         }
         // globals holding function values are callable from dsp through scope lookup
         let mut sc = Scope { vars: vec![] };
